@@ -105,7 +105,7 @@ Section Serialize.
     | FStr s => Ok (canonical_string s)
     | FRegex p fl => Ok (47%N :: p ++ 47%N :: flags_text fl)
     | FList items => xs <- exprs_text items ;; Ok (91%N :: join_sep [44; 32]%N xs ++ [93%N])
-    | FNot r => x <- expr_text r ;; Ok (33%N :: x)
+    | FNot r => x <- expr_text r ;; Ok (33%N :: wrap_operand r x)
     | FInfix l o r =>
         a <- expr_text l ;; b <- expr_text r ;;
         Ok (if is_logical o then 40%N :: (a ++ sp :: binop_text o ++ sp :: b) ++ [41%N]
